@@ -256,25 +256,70 @@ Definition frac_is_wrapped (rs : list route) (o : route) : bool :=
   existsb (fun r => (u32 (r_idx r) =? r_idx o) && r_hasfrac r &&
                     (frac_value (r_fnum r) (r_fden r) =? r_fnum o)) rs.
 
+(* ---------- HttpConnectionManager.http_filters (unmarshal_lds.go processHTTPFilters) ----------
+   a filter is (kind, is_optional, name id); name id 0 = empty name.
+   kind 1 router (terminal, client+server), 2 non-terminal client+server, 3 non-terminal
+   client-only, 4 non-terminal server-only, 6 registered but its config does not parse,
+   anything else = no filter registered for the type_url.
+   The result lists the retained filters (kind, name). *)
+Definition flt_registered (k : Z) : bool := mem k [1; 2; 3; 4; 6].
+Definition flt_supported (server : bool) (k : Z) : bool :=
+  if server then mem k [1; 2; 4] else mem k [1; 2; 3].
+
+Fixpoint flt_loop (server : bool) (fs : list (Z * Z * Z)) (seen : list Z) : option (list (Z * Z)) :=
+  match fs with
+  | [] => Some []
+  | (k, o, n0) :: r =>
+    let n := u32 n0 in
+    if n =? 0 then None else
+    if mem n seen then None else
+    if negb (flt_registered k) then (if z2b o then flt_loop server r (n :: seen) else None) else
+    if k =? 6 then None else
+    if negb (flt_supported server k) then (if z2b o then flt_loop server r (n :: seen) else None) else
+    match flt_loop server r (n :: seen) with
+    | None => None
+    | Some out => Some ((k, n) :: out)
+    end
+  end.
+
+(* the list is not empty, no filter but the last is terminal, the last one is terminal *)
+Definition term_ok (ret : list (Z * Z)) : bool :=
+  match rev ret with
+  | [] => false
+  | l :: r => (fst l =? 1) && forallb (fun f => negb (fst f =? 1)) r
+  end.
+
+(* unmarshalListenerResource for a Listener that is otherwise valid: an API listener with an
+   RDS route specifier (server = false) or a server-side listener whose filter chains all
+   carry the same HttpConnectionManager (server = true) *)
+Definition parse_lds (named server : bool) (fs : list (Z * Z * Z)) : option (list (Z * Z)) :=
+  if negb named then None else
+  match flt_loop server fs [] with
+  | None => None
+  | Some ret => if term_ok ret then Some ret else None
+  end.
+
 (* ---------- requests and the word stream ---------- *)
 Inductive req :=
 | REds (c : cla)
 | RRds (named : bool) (rs : list route)
+| RLds (named server : bool) (fs : list (Z * Z * Z))
 | RRaw (w : word).
 
 (* items collected (right to left) for the flush word to their right *)
 Record pend := mk_pend {
   p_eps : list lbep; p_locs : list loc; p_drops : list (Z * Z);
-  p_hdrs : list Z; p_wcs : list Z; p_routes : list route }.
-Definition pend0 : pend := mk_pend [] [] [] [] [] [].
-Definition dst : Type := pend * option (Z * bool) * list req.
+  p_hdrs : list Z; p_wcs : list Z; p_routes : list route; p_flts : list (Z * Z * Z) }.
+Definition pend0 : pend := mk_pend [] [] [] [] [] [] [].
+Definition dst : Type := pend * option (Z * bool * bool) * list req.
 Definition dst0 : dst := (pend0, None, []).
 
 Definition close (s : dst) : list req :=
   match s with
-  | (p, Some (k, f), done) =>
+  | (p, Some (k, f, sv), done) =>
     if k =? 9 then REds (mk_cla f (p_drops p) (p_locs p)) :: done
-    else RRds f (p_routes p) :: done
+    else if k =? 10 then RRds f (p_routes p) :: done
+    else RLds f sv (p_flts p) :: done
   | (_, None, done) => done
   end.
 
@@ -284,8 +329,10 @@ Definition close (s : dst) : list req :=
            [4; idx; hasmatch; nq; path; case; hasfrac; fnum; fden; action; cs]  route
            [5; kind]                        header matcher of the last route
            [6; w]                           weighted cluster of the last route
+           [7; kind; optional; name]        HTTP filter of the HttpConnectionManager
            [9; flag] / [10; flag]           end of a ClusterLoadAssignment / RouteConfiguration
                                             (flag: ops = name non-empty, obs = accepted)
+           [11; flag; server]               end of a Listener (API listener / server-side)
            20 :: rest                       raw-bytes request / its result
    anything else is ignored. *)
 Definition push (w : word) (s : dst) : dst :=
@@ -297,20 +344,20 @@ Definition push (w : word) (s : dst) : dst :=
       match a with
       | [h; id; wt; pr] =>
         (mk_pend [] (mk_loc (z2b h) id wt pr (p_eps p) :: p_locs p) (p_drops p)
-                 (p_hdrs p) (p_wcs p) (p_routes p), o, done)
+                 (p_hdrs p) (p_wcs p) (p_routes p) (p_flts p), o, done)
       | _ => s
       end
     else if tag =? 2 then
       match a with
       | h :: wt :: ad :: ex =>
         (mk_pend (mk_ep (z2b h) wt ad ex :: p_eps p) (p_locs p) (p_drops p)
-                 (p_hdrs p) (p_wcs p) (p_routes p), o, done)
+                 (p_hdrs p) (p_wcs p) (p_routes p) (p_flts p), o, done)
       | _ => s
       end
     else if tag =? 3 then
       match a with
       | [n; d] => (mk_pend (p_eps p) (p_locs p) ((n, d) :: p_drops p)
-                           (p_hdrs p) (p_wcs p) (p_routes p), o, done)
+                           (p_hdrs p) (p_wcs p) (p_routes p) (p_flts p), o, done)
       | _ => s
       end
     else if tag =? 4 then
@@ -318,22 +365,33 @@ Definition push (w : word) (s : dst) : dst :=
       | [ix; hm; nq; pk; cs; hf; fn; fd; ac; cl] =>
         (mk_pend (p_eps p) (p_locs p) (p_drops p) [] []
                  (mk_route ix (z2b hm) nq pk cs (z2b hf) fn fd ac cl (p_hdrs p) (p_wcs p)
-                  :: p_routes p), o, done)
+                  :: p_routes p) (p_flts p), o, done)
       | _ => s
       end
     else if tag =? 5 then
       match a with
-      | [k] => (mk_pend (p_eps p) (p_locs p) (p_drops p) (k :: p_hdrs p) (p_wcs p) (p_routes p), o, done)
+      | [k] => (mk_pend (p_eps p) (p_locs p) (p_drops p) (k :: p_hdrs p) (p_wcs p) (p_routes p) (p_flts p), o, done)
       | _ => s
       end
     else if tag =? 6 then
       match a with
-      | [x] => (mk_pend (p_eps p) (p_locs p) (p_drops p) (p_hdrs p) (x :: p_wcs p) (p_routes p), o, done)
+      | [x] => (mk_pend (p_eps p) (p_locs p) (p_drops p) (p_hdrs p) (x :: p_wcs p) (p_routes p) (p_flts p), o, done)
+      | _ => s
+      end
+    else if tag =? 7 then
+      match a with
+      | [k; op; n] => (mk_pend (p_eps p) (p_locs p) (p_drops p) (p_hdrs p) (p_wcs p) (p_routes p)
+                               ((k, op, n) :: p_flts p), o, done)
       | _ => s
       end
     else if (tag =? 9) || (tag =? 10) then
       match a with
-      | [f] => (pend0, Some (tag, z2b f), close s)
+      | [f] => (pend0, Some (tag, z2b f, false), close s)
+      | _ => s
+      end
+    else if tag =? 11 then
+      match a with
+      | [f; sv] => (pend0, Some (tag, z2b f, z2b sv), close s)
       | _ => s
       end
     else if tag =? 20 then (pend0, None, RRaw a :: close s)
@@ -355,6 +413,7 @@ Definition enc_req (q : req) : list word :=
   | REds c => map (fun nd => [3; fst nd; snd nd]) (c_drops c) ++ flat_map enc_loc (c_locs c)
               ++ [[9; b2z (c_named c)]]
   | RRds f rs => flat_map enc_route rs ++ [[10; b2z f]]
+  | RLds f sv fs => map (fun x => [7; fst (fst x); snd (fst x); snd x]) fs ++ [[11; b2z f; b2z sv]]
   | RRaw w => [20 :: w]
   end.
 
@@ -369,6 +428,10 @@ Definition res_of_req (dual : bool) (q : req) : req :=
                  | Some os => RRds true os
                  | None => RRds false []
                  end
+  | RLds f sv fs => match parse_lds f sv fs with
+                    | Some out => RLds true sv (map (fun x => (fst x, 0, snd x)) out)
+                    | None => RLds false sv []
+                    end
   | RRaw _ => RRaw [0; 1; 1]     (* no panic; same answer twice; invariant oracle ok *)
   end.
 
@@ -388,6 +451,8 @@ Definition run (cfg : word) (ops : list word) : option (list word) :=
    7  RDS accepted: ActionType is one of the three enum values
    8  RDS accepted: action route => weighted clusters all >= 1 with total in [1, 2^32-1], or a plugin
    9  RDS accepted: Fraction is numerator*scale of the route it came from, possibly wrapped
+   10 LDS accepted: the retained HTTP filters are non-empty, the last one is terminal (router)
+      and no other one is
    61 (finding) no accepted route is marked RouteActionUnsupported
    91 (finding) Fraction is exactly numerator*scale (no uint32 wrap) *)
 Definition clause_req (i : Z) (q o : req) : list (Z * Z * bool) :=
@@ -406,6 +471,8 @@ Definition clause_req (i : Z) (q o : req) : list (Z * Z * bool) :=
        (8, i, forallb wc_ok os);
        (9, i, forallb (fun o => implb (r_hasfrac o) (frac_is_exact rs o || frac_is_wrapped rs o)) os)]
     else []
+  | RLds _ _ _, RLds ok _ out =>
+    if ok then [(10, i, term_ok (map (fun x => (fst (fst x), snd x)) out))] else []
   | RRaw _, RRaw [p; d; v] => [(1, i, (p =? 0) && (d =? 1) && (v =? 1))]
   | _, _ => [(1, i, false)]
   end.
